@@ -60,6 +60,16 @@ func runC15(c *Ctx) {
 	checkRescanFinishedAlwaysMarksSynced(c, "C15-R2")
 	checkStoppedClientIsDetached(c, "C15-R2")
 	checkNeutrinoProducerDiscipline(c, "C15-R2", "a")
+	checkBirthdayBoundaryBlockIsConnected(c, "C15-R2")
+	// (the hand-over select may give up on quit; what may not happen is a return that never got as far as the hand-over)
+	checkEveryReturnPasses(c, "C15-R2", "filtered-block-always-handed-over", c.P.Func("chain", "NeutrinoClient", "onFilteredBlockConnected"),
+		func(i ssa.Instruction) bool {
+			if _, isSel := i.(*ssa.Select); isSel {
+				return true
+			}
+			return mayCallNamed("dispatchRescanFinished")(i)
+		},
+		"NeutrinoClient.onFilteredBlockConnected can return without having offered the block to the queue (and so without recording it as the last filtered one and trying to finish the rescan): a rescan that ends on a block without wallet transactions never reports itself finished, the wallet is never marked synced, and every later disconnect is dropped")
 	checkSyncStateReadUnderManagerLock(c, "C15-R5")
 	// the wallet can follow the backend only if the notifications reach it in the order they were produced
 	c.Borrow(runC18, "C18-R1", "C15-R2", func(k string) bool { return strings.HasPrefix(k, "direct-handoff-only-when-overflow-empty") })
